@@ -49,12 +49,12 @@ def scratch(name, features):
     return "/tmp/pvharness-%s-%s%s" % (tag, name, suffix), "/tmp/pvtarget-%s-%s%s" % (tag, name, suffix)
 
 
-def build_batch(hbin, count, seed, features, name="c02batch", gfile=None, timeout=1500):
+def build_batch(hbin, count, seed, features, name="c02batch", gfile=None, timeout=1500, lit=False):
     """Generate the batch program with `c02 batch`, build it against the repository (path dependencies: cargo rebuilds when the
     repository changes); returns (rc, log, exe)."""
     d, tdir = scratch(name, features)
     os.makedirs(os.path.join(d, "src"), exist_ok=True)
-    rc, src = sh("%s batch %d %d %s" % (hbin, count, seed, shlex.quote(gfile) if gfile else ""), timeout=600)
+    rc, src = sh("%s batch %d %d %s %s" % (hbin, count, seed, shlex.quote(gfile) if gfile else "", "lit" if lit else ""), timeout=600)
     if rc != 0 or "fn run_all" not in src:
         return 1, "c02 batch failed:\n" + src[-2000:], ""
     write_if_changed(os.path.join(d, "src", "main.rs"), src)
@@ -169,6 +169,37 @@ def run(tier, seed, replay=None):
         for a in range(0, total, step):
             cmds.append("%s %d %d %d | %s" % (exe, ml, a, min(total, a + step), runner))
     mism, known, stats = run_pipes(cmds)
+
+    # ---- targeted failing-input search: when the emitted code differs structurally from the model but the batch found no behavioural
+    # difference, compile the differing grammars themselves and run them on all short strings over their own literal alphabet ----
+    tv_diff = [m for m in mism if m["kind"] == "model" and " at=" in m["case"] and field(m["case"], "g")]
+    if tv_diff and not [m for m in mism if m["kind"] == "spec"]:
+        for feat in ("", "extras"):
+            pool = [m for m in tv_diff if field(m["case"], "x") == ("1" if feat else "0")]
+            groups = {}
+            for m in sorted(pool, key=lambda m: len(field(m["case"], "g"))):
+                at = field(m["case"], "at")
+                key = "special" if ("WHITESPACE" in at or "COMMENT" in at or "skip" in at) else ("builtin" if "built-in" in at else "rule")
+                groups.setdefault(key, [])
+                if len(groups[key]) < 8 and field(m["case"], "g") not in [g for v in groups.values() for g in v]:
+                    groups[key].append(field(m["case"], "g"))
+            texts = [g for v in groups.values() for g in v]
+            if not texts:
+                continue
+            gf = os.path.join(BUILD, "c02_target_grammars%s.txt" % ("-x" if feat else ""))
+            with open(gf, "w") as f:
+                f.write("\n".join(texts) + "\n")
+            brc, bout, exe = build_batch(builds[feat], 0, seed, feat, name="c02target", gfile=gf, lit=True)
+            if brc != 0:
+                log("C02: targeted search: the differing grammars do not compile (%s)" % bout[-300:].replace("\n", " "))
+                continue
+            m2, k2, s2 = run_pipes(["%s 4 | %s" % (exe, runner)])
+            log("C02: targeted search over %d structurally differing grammars%s: %d cases, %d disagreements inside H" % (
+                len(texts), " (grammar-extras)" if feat else "", s2.get("cases", 0), s2.get("spec_in_H", 0)))
+            mism += [m for m in m2 if m["kind"] in ("spec", "harness")]
+            for k, v in s2.items():
+                if k in ("cases", "evaluations", "distinct_nontrivial", "spec_in_H"):
+                    stats[k] = stats.get(k, 0) + v
 
     kf = {f.get("class"): f for f in known_findings("C02") if f.get("status") == "known"}
     spec_m = [m for m in mism if m["kind"] == "spec"]
